@@ -109,7 +109,14 @@ def reverse_iter_lines(file_obj, blocksize=DEFAULT_BLOCKSIZE, preseek=True, enco
             yield line.decode(encoding) if encoding else line
         buff = lines[0]
     if buff:
-        yield buff.decode(encoding) if encoding else buff
+        # what is left is the head of the file, which can still hold
+        # several lines (it started with an empty line, or never
+        # contained two lines): split it like the blocks above
+        lines = buff.splitlines()
+        if buff[-1:] == newline_bytes:
+            yield empty_text if encoding else empty_bytes
+        for line in lines[::-1]:
+            yield line.decode(encoding) if encoding else line
 
 
 
